@@ -1124,18 +1124,30 @@ func (ex *Exec) convert(st *State, fr *Frame, x *ssa.Convert) {
 				fr.ip++
 				return
 			}
-			// []rune -> string
+			// []rune -> string: symbolic runes fork on their UTF-8 length class
 			vals := st.sliceVals(fv)
-			var sb []byte
+			alts := []Alt{{cond: tTrue, val: emptyStr}}
 			for _, rv := range vals {
 				rt := rv.(*Term)
-				if !rt.IsConst() {
-					unsup("string([]rune) with symbolic runes")
+				if rt.IsConst() {
+					piece := mkStr(string(utf8.AppendRune(nil, rune(rt.Int()))))
+					for i := range alts {
+						alts[i].val = strConcat(alts[i].val.(*StrV), piece)
+					}
+					continue
 				}
-				sb = utf8.AppendRune(sb, rune(rt.Int()))
+				var na []Alt
+				for _, a := range alts {
+					for _, ra := range runeUTF8Alts(rt) {
+						na = append(na, Alt{cond: mkAnd(a.cond, ra.cond), val: strConcat(a.val.(*StrV), ra.val.(*StrV))})
+					}
+				}
+				alts = na
+				if len(alts) > 256 {
+					unsup("string([]rune): too many symbolic runes")
+				}
 			}
-			ex.set(fr, x, mkStr(string(sb)))
-			fr.ip++
+			ex.forkAlts(st, fr, x, alts)
 			return
 		case *Term:
 			// integer -> string (rune encoding)
@@ -1261,4 +1273,24 @@ func (ex *Exec) convert(st *State, fr *Frame, x *ssa.Convert) {
 		return
 	}
 	unsup("convert %v -> %v (%T)", from, to, v)
+}
+
+// runeUTF8Alts: the UTF-8 encoding of a symbolic rune (32-bit), one alternative per length class.
+func runeUTF8Alts(r *Term) []Alt {
+	c := func(v uint64) *Term { return mkBV(32, v) }
+	b8 := func(t *Term) *Term { return mkExtract(t, 7, 0) }
+	shr := func(t *Term, n uint64) *Term { return mkBin(OpLShr, t, c(n)) }
+	or := func(a *Term, k uint64) *Term { return mkBin(OpBOr, a, mkBV(8, k)) }
+	low6 := func(t *Term) *Term { return mkBin(OpBAnd, b8(t), mkBV(8, 0x3f)) }
+	in := func(lo, hi uint64) *Term { return mkAnd(mkCmp(OpUle, c(lo), r), mkCmp(OpUle, r, c(hi))) }
+	surrogate := in(0xd800, 0xdfff)
+	valid3 := mkAnd(in(0x800, 0xffff), mkNot(surrogate))
+	invalid := mkOr(surrogate, mkCmp(OpUlt, c(0x10ffff), r)) // includes negative values (unsigned compare)
+	return []Alt{
+		{cond: in(0, 0x7f), val: mkStrBytes([]*Term{b8(r)})},
+		{cond: in(0x80, 0x7ff), val: mkStrBytes([]*Term{or(b8(shr(r, 6)), 0xc0), or(low6(r), 0x80)})},
+		{cond: valid3, val: mkStrBytes([]*Term{or(b8(shr(r, 12)), 0xe0), or(low6(shr(r, 6)), 0x80), or(low6(r), 0x80)})},
+		{cond: in(0x10000, 0x10ffff), val: mkStrBytes([]*Term{or(b8(shr(r, 18)), 0xf0), or(low6(shr(r, 12)), 0x80), or(low6(shr(r, 6)), 0x80), or(low6(r), 0x80)})},
+		{cond: invalid, val: mkStr("\uFFFD")},
+	}
 }
